@@ -148,7 +148,7 @@ func NewSource(data []byte, slice *Slicer, yield func(string)) (savior.SeekSourc
 // ApplyOpts configures a patch application.
 type ApplyOpts struct {
 	PatchSlice   *Slicer
-	PoolSlice    *Slicer // only where every consumer tolerates short reads (rsync series, fresh bowl)
+	PoolSlice    *Slicer // short reads from the old-build pool (the overlay bowl reads the old build through its own fspool, not through this one)
 	Yield        func(string)
 	Whitelist    map[int64]bool
 	Save         patcher.SaveConsumer
